@@ -148,6 +148,7 @@ def candidates(rng, t, opts, st, depth):
         A((0.8, ['scan', 'acc_sentinel', 'sentinel_factory', red(), None]))
         if not no_completion:
             A((1, ['scan', 'acc_append_new', 'list', rng.random() < 0.5, 'term_mark']))
+            A((0.8, ['scan', 'acc_append_mut', rng.choice(['list', 'list_factory']), True, 'term_mark_mut']))
         A((2, ['count', red()]))
         A((2, ['take', rng.choice([0, 1, 1, 2, 3, 5]) if not opts.scale else rng.choice([257, 300, 1000])]))
         if opts.allow_empty_sensitive:
